@@ -5,6 +5,7 @@ package props
 import (
 	"fmt"
 	"reflect"
+	"sort"
 	"strings"
 	"testing"
 
@@ -403,6 +404,141 @@ func c11Cases(noise map[string]any, noiseKey string) []c11Case {
 	return out
 }
 
+// c11DepCase: dependencies named with the short list syntax take the documented defaults, each on its own,
+// however many files mention the list and whichever single entry a later file refines.
+type c11DepStep struct {
+	List   []string       `json:"list,omitempty"`
+	Refine string         `json:"refine,omitempty"`
+	Attrs  map[string]any `json:"attrs,omitempty"`
+}
+
+type c11DepCase struct {
+	Steps        []c11DepStep `json:"steps"` // the lists come first, the refinements after them
+	ExtendsFirst bool         `json:"extends_first,omitempty"`
+}
+
+func genC11Dep(t *rapid.T) c11DepCase {
+	all := []string{"db", "cache", "mq", "log"}
+	var cs c11DepCase
+	nl := rapid.IntRange(1, 3).Draw(t, "nlists")
+	for i := 0; i < nl; i++ {
+		n := rapid.IntRange(1, 4).Draw(t, "listlen")
+		off := rapid.IntRange(0, 3).Draw(t, "listoff")
+		var l []string
+		for j := 0; j < n; j++ {
+			l = append(l, all[(off+j)%4])
+		}
+		sort.Strings(l)
+		cs.Steps = append(cs.Steps, c11DepStep{List: l})
+	}
+	nr := rapid.IntRange(0, 2).Draw(t, "nrefine")
+	for i := 0; i < nr; i++ {
+		attrs := map[string]any{"condition": rapid.SampledFrom([]string{"service_healthy", "service_completed_successfully", "service_started"}).Draw(t, "cond")}
+		if rapid.Bool().Draw(t, "restart") {
+			attrs["restart"] = true
+		}
+		if rapid.IntRange(0, 2).Draw(t, "optional") == 0 {
+			attrs["required"] = false
+		}
+		cs.Steps = append(cs.Steps, c11DepStep{Refine: rapid.SampledFrom(all).Draw(t, "refine"), Attrs: attrs})
+	}
+	cs.ExtendsFirst = nl >= 2 && rapid.Bool().Draw(t, "extends-first")
+	return cs
+}
+
+func c11DepCheck(c *Ctx, cs c11DepCase) *Failure {
+	if len(cs.Steps) == 0 {
+		return nil
+	}
+	frag := func(st c11DepStep) any {
+		if st.Refine != "" {
+			return map[string]any{st.Refine: cloneTree(st.Attrs)}
+		}
+		var l []any
+		for _, d := range st.List {
+			l = append(l, d)
+		}
+		return l
+	}
+	// the reference: every dependency named anywhere, with the defaults, then the refinements in order
+	type dep struct {
+		cond              string
+		required, restart bool
+	}
+	want := map[string]*dep{}
+	for _, st := range cs.Steps {
+		for _, d := range st.List {
+			if want[d] == nil {
+				want[d] = &dep{cond: "service_started", required: true}
+			}
+		}
+		if st.Refine != "" {
+			if want[st.Refine] == nil {
+				want[st.Refine] = &dep{cond: "service_started", required: true}
+			}
+			w := want[st.Refine]
+			w.cond = st.Attrs["condition"].(string)
+			if st.Attrs["restart"] == true {
+				w.restart = true
+			}
+			if st.Attrs["required"] == false {
+				w.required = false
+			}
+		}
+	}
+	svcs := map[string]any{}
+	for _, d := range []string{"db", "cache", "mq", "log"} {
+		svcs[d] = map[string]any{"image": "busybox"}
+	}
+	var files []memFile
+	main := []string{"compose.yaml"}
+	rest := cs.Steps[1:]
+	if cs.ExtendsFirst && len(cs.Steps) >= 2 && cs.Steps[1].Refine == "" {
+		svcs["tmpl"] = map[string]any{"image": "nginx", "depends_on": frag(cs.Steps[0])}
+		svcs["web"] = map[string]any{"extends": map[string]any{"service": "tmpl"}, "depends_on": frag(cs.Steps[1])}
+		rest = cs.Steps[2:]
+		c.Label("depends-on-list:through-extends")
+	} else {
+		svcs["web"] = map[string]any{"image": "nginx", "depends_on": frag(cs.Steps[0])}
+	}
+	files = append(files, memFile{Name: "compose.yaml", Content: emitYAML(map[string]any{"services": svcs}, nil)})
+	for i, st := range rest {
+		n := fmt.Sprintf("override-%d.yaml", i)
+		files = append(files, memFile{Name: n, Content: emitYAML(map[string]any{"services": map[string]any{"web": map[string]any{"depends_on": frag(st)}}}, nil)})
+		main = append(main, n)
+	}
+	c.Label(fmt.Sprintf("depends-on-list:files:%d", len(main)))
+	r := loadCase{Files: files, Main: main}.loadMem()
+	if r.Panic != nil {
+		return r.Panic
+	}
+	desc := func() string {
+		var b strings.Builder
+		for _, f := range files {
+			b.WriteString("--- " + f.Name + "\n" + f.Content)
+		}
+		return b.String()
+	}
+	if len(main) > 1 || cs.ExtendsFirst {
+		c.NonTrivial(jsonKey(cs), map[string]any{"files": files})
+	}
+	if r.Err != nil {
+		return failf("c11:model-rejected:depends-on-list", "the model fails to load: %v\n%s", r.Err, desc())
+	}
+	got := r.Project.Services["web"].DependsOn
+	if len(got) != len(want) {
+		return failf("c11:depends-on-list-defaults", "web depends on %v, reference has %d entries\n%s", got, len(want), desc())
+	}
+	for d, w := range want {
+		g, ok := got[d]
+		if !ok || g.Condition != w.cond || g.Required != w.required || g.Restart != w.restart {
+			return failf("c11:depends-on-list-defaults", "depends_on.%s = %+v (present %v), reference {condition: %s, required: %v, restart: %v}: an entry of the short list takes the defaults unless that very entry is refined\n%s",
+				d, g, ok, w.cond, w.required, w.restart, desc())
+		}
+	}
+	return nil
+}
+
 func TestC11(t *testing.T) {
 	c := NewCtx(t, "C11")
 	base := c11Cases(nil, "")
@@ -414,6 +550,7 @@ func TestC11(t *testing.T) {
 		}
 	}
 	RunEnum(c, t, "defaults", len(base), func(i int) c11Case { return base[i] }, c11Check, true)
+	RunRapid(c, t, Sub[c11DepCase]{Kind: "depends-on-list-defaults", Quick: 3000, Thorough: 40_000, Gen: genC11Dep, Check: c11DepCheck})
 	// the same table on top of random other attributes of the service (the defaults must not depend on them)
 	RunRapid(c, t, Sub[c11Case]{Kind: "defaults-with-noise", Quick: 6000, Thorough: 50_000,
 		Gen: func(t *rapid.T) c11Case {
